@@ -3,9 +3,13 @@
     A history [ops] is the list of calls made on one DBTracer in program order:
     task events (StartTask / EndTask / AddTaskTag / AddMilestone) interleaved with
     StartTracing / StopTracing in ANY order (no alternation hypothesis) and ended by
-    Terminate.  [wf_ops ops]: the task events are well formed (a task is started at
-    most once with valid fields, ended / tagged / given milestones only while it is
-    running), the clock does not go back and nothing follows Terminate. *)
+    Terminate.  [wf_ops ops]: a task is started with valid fields and only while no
+    task with the same ID is running (IDs may be reused after the end); ends, tags and
+    milestones are unconstrained - an end of an ID that is not running (a repeated
+    end, the blanket end of a reset path, an unknown ID) records nothing; a tag or
+    milestone that mentions an ID while no such task is running waits for the next
+    start of that ID (any end of the ID discards it); the clock does not go back and
+    nothing follows Terminate. *)
 From Akita Require Import Lib.Base C36.Model C36.Spec C36.Proofs1 C36.Proofs2 C36.Proofs3.
 Local Open Scope N_scope.
 
@@ -29,7 +33,8 @@ Print Assumptions c36_model_refines_spec.
 (** A trace row is in the database IFF it is the row (ID, parent, kind, what,
     location, start, end) of a task that was running at some point while tracing
     was on — tracing was on when it started, or StartTracing was called while it was
-    running — and that ended (before Terminate, which is the last call). *)
+    running — and that ended (its first end after the start; before Terminate, which
+    is the last call). *)
 Theorem c36_recorded_iff : forall ops row, wf_ops ops = true -> ends_term ops = true ->
   (In row (t_trace (s_db (final ops))) <-> should_record ops row).
 Proof.
@@ -38,21 +43,24 @@ Proof.
 Qed.
 Print Assumptions c36_recorded_iff.
 
-(** ... exactly once: no two trace rows carry the same task ID. *)
+(** ... exactly once: a run of a task contributes at most one row (its first end;
+    [c36_recorded_iff]), and when task IDs are not reused no two rows carry the same
+    task ID. *)
 Theorem c36_once : forall ops, wf_ops ops = true -> ends_term ops = true ->
-  NoDup (map row_id (t_trace (s_db (final ops)))).
+  NoDup (started_ids ops) -> NoDup (map row_id (t_trace (s_db (final ops)))).
 Proof.
-  intros ops Hwf He. destruct (final_ok ops Hwf) as [_ [H2 [_ [_ [_ [_ H7]]]]]].
-  destruct (H7 He) as [_ [-> _]]. rewrite H2. apply recorded_once. exact Hwf.
+  intros ops Hwf He Hnd. destruct (final_ok ops Hwf) as [_ [H2 [_ [_ [_ [_ H7]]]]]].
+  destruct (H7 He) as [_ [-> _]]. rewrite H2. apply recorded_once. exact Hnd.
 Qed.
 Print Assumptions c36_once.
 
 (** With a recorded task its tags (all of them, in order) and its milestones (the
     first of every instant, in order) are recorded: the tag and milestone tables are
     the concatenation, over the recorded tasks in the order of their ends, of
-    [tags_of id between] and [first_per_instant [] (miles_of id between)], where
-    [between] are the calls made while the task was running ([spec_rows]); and the
-    milestones kept for one task have pairwise different instants. *)
+    [pend_tags id older ++ tags_of id between] and
+    [first_per_instant [] (pend_miles id older ++ miles_of id between)], where
+    [between] are the calls made while the task was running and [older] the calls
+    before its start ([spec_rows]). *)
 Theorem c36_tags_milestones : forall ops, wf_ops ops = true -> ends_term ops = true ->
   t_mile (s_db (final ops)) = snd (fst (spec_rows [] ops)) /\
   t_tag (s_db (final ops)) = snd (spec_rows [] ops).
@@ -62,17 +70,15 @@ Proof.
 Qed.
 Print Assumptions c36_tags_milestones.
 
-(** ... and [between] misses nothing: under the well-formedness of the task events,
-    every tag and milestone the history holds for a recorded task lies between its
-    start and its end, so the rows above are ALL the tags of the task and the first
-    milestone of every instant among ALL its milestones. *)
+(** ... where the notes that waited for the start are exactly those that mention the
+    ID since the last start or end of that ID (or since the beginning). *)
 From Akita Require Import C36.Proofs5.
-Theorem c36_notes_complete : forall a id p k w l s b e c,
-  wf_ops (a ++ OStart id p k w l s :: b ++ OEnd id e :: c) = true ->
-  tags_of id (a ++ OStart id p k w l s :: b ++ OEnd id e :: c) = tags_of id b /\
-  miles_of id (a ++ OStart id p k w l s :: b ++ OEnd id e :: c) = miles_of id b.
-Proof. exact notes_between. Qed.
-Print Assumptions c36_notes_complete.
+Theorem c36_pending_notes : forall id a1 a2,
+  (a1 = [] \/ exists a0 x, a1 = a0 ++ [x] /\ about id x = true) ->
+  forallb (fun o => negb (about id o)) a2 = true ->
+  pend_tags id (rev (a1 ++ a2)) = tags_of id a2 /\ pend_miles id (rev (a1 ++ a2)) = miles_of id a2.
+Proof. exact pending_notes. Qed.
+Print Assumptions c36_pending_notes.
 
 Theorem c36_milestone_per_instant : forall seen l, NoDup (map mile_time (first_per_instant seen l)).
 Proof. exact fpi_nodup. Qed.
@@ -110,24 +116,41 @@ Theorem c36_double_start_old_refuted :
 Proof. vm_compute. repeat split. Qed.
 Print Assumptions c36_double_start_old_refuted.
 
+(** Regression: before the placeholder fix StartTracing marked an entry created by
+    a tag that mentioned a task before its start: the task was recorded although it
+    started and ended after tracing had been stopped again, and an end of a
+    never-started ID wrote a row with empty kind / what / location. *)
+Theorem c36_placeholder_mark_old_refuted :
+  let ops := [OTag 50 7 4 1; OStartTracing 2; OStopTracing 3; OStart 7 0 1 2 3 4; OEnd 7 5; OTerminate 6] in
+  let ops2 := [OTag 50 9 4 1; OStartTracing 2; OEnd 9 3; OTerminate 4] in
+  wf_ops ops = true /\ wf_ops ops2 = true /\
+  t_trace (s_db (final_old_mark ops)) = [trace_row 7 0 1 2 3 4 5] /\
+  t_trace (s_db (final ops)) = [] /\ fst (fst (spec_rows [] ops)) = [] /\
+  t_trace (s_db (final_old_mark ops2)) = [trace_row 9 0 0 0 0 0 3] /\
+  t_trace (s_db (final ops2)) = [] /\ fst (fst (spec_rows [] ops2)) = [].
+Proof. vm_compute. repeat split. Qed.
+Print Assumptions c36_placeholder_mark_old_refuted.
+
 (** Non-vacuity: a well-formed history with non-alternating control calls, a task
     running when tracing is switched on, a task outside every window, two
     milestones at one instant. *)
 Example c36_nonvacuous :
-  let ops := [OStopTracing 1; OStart 1 0 1 2 3 5; OStart 2 1 1 2 4 6; OEnd 2 7;
+  let ops := [OStopTracing 1; OTag 59 1 4 2; OStart 1 0 1 2 3 5; OStart 2 1 1 2 4 6; OEnd 2 7; OEnd 2 7;
               OStartTracing 8; OStartTracing 9; OMile 50 1 10 6 7; OMile 51 1 10 8 9; OTag 60 1 5 11;
-              OEnd 1 12; OStopTracing 13; OStopTracing 14; OStart 3 0 1 2 3 15; OEnd 3 16; OTerminate 20] in
+              OEnd 1 12; OEnd 2 12; OEnd 77 12; OStopTracing 13; OStopTracing 14;
+              OStart 2 0 1 2 3 15; OEnd 2 16; OTerminate 20] in
   wf_ops ops = true /\ ends_term ops = true /\
   t_trace (s_db (final ops)) = [trace_row 1 0 1 2 3 5 12] /\
   t_mile (s_db (final ops)) = [mile_row 50 1 10 6 7] /\
-  t_tag (s_db (final ops)) = [tag_row 60 1 11 5] /\
+  t_tag (s_db (final ops)) = [tag_row 59 1 2 4; tag_row 60 1 11 5] /\
   t_seg (s_db (final ops)) = [seg_row 8 13] /\
   should_record ops (trace_row 1 0 1 2 3 5 12).
 Proof.
   vm_compute. repeat split.
-  exists [OStopTracing 1], [OStart 2 1 1 2 4 6; OEnd 2 7; OStartTracing 8; OStartTracing 9;
-                            OMile 50 1 10 6 7; OMile 51 1 10 8 9; OTag 60 1 5 11],
-         [OStopTracing 13; OStopTracing 14; OStart 3 0 1 2 3 15; OEnd 3 16; OTerminate 20],
+  exists [OStopTracing 1; OTag 59 1 4 2],
+         [OStart 2 1 1 2 4 6; OEnd 2 7; OEnd 2 7; OStartTracing 8; OStartTracing 9;
+          OMile 50 1 10 6 7; OMile 51 1 10 8 9; OTag 60 1 5 11],
+         [OEnd 2 12; OEnd 77 12; OStopTracing 13; OStopTracing 14; OStart 2 0 1 2 3 15; OEnd 2 16; OTerminate 20],
          1, 0, 1, 2, 3, 5, 12.
   repeat split.
 Qed.
